@@ -5,7 +5,8 @@ import numpy as np
 from harness.common import cz, cq, cnat, cbool, clist, ctup, copt, cres, call_res, import_aa, frac
 
 ID = "C08"
-GEN = []
+GEN = ["fit"]
+GEN_FILES = ["Gen/Gen_fit.v"]
 PROPS = "Props/C08.v"
 COQ_CHECK = ("Model.C08", "check")
 COQ_FALLBACK = ("Model.C08", "spec_ok")
